@@ -2,13 +2,47 @@
 from checks.worldcheck import Spec, replayed_delivery
 
 PROP = "C01"
+L = 256 * 1024
+
+
+def explicit(tier, seed):
+    """Contexts recorded as a summary (result over the checkpoint size limit): their bodies are traversed again on replay, and the
+    completed operations inside them must be answered from the record, at every nesting depth."""
+    from checks.c02 import explicit as big_results
+
+    for c in big_results(tier, seed):
+        yield dict(c, label="c01-" + c["label"])
+    i = 0
+    tail = [{"k": "wait", "s": 1}, {"k": "step", "val": "after"}, {"k": "wait", "s": 1}, {"k": "step", "val": "after2"}]
+    inner_sets = ([{"k": "step", "val": "in1"}, {"k": "wait", "s": 1}, {"k": "step", "val": "in2"}],
+                  [{"k": "child", "body": [{"k": "step", "val": "deep"}, {"k": "step", "val": {"a": [1, 2]}}]}, {"k": "step", "val": 3}],
+                  [{"k": "step", "script": [{"do": "fail", "cls": "ValueError", "msg": "once"}, {"do": "ok", "val": 7}],
+                    "retry": {"decisions": [("retry", 1), ("stop",)]}}, {"k": "wfc", "init": 0, "decisions": [("cont", 1), ("stop",)]}],
+                  [{"k": "par", "branches": [{"body": [{"k": "step", "val": "pa"}]}, {"body": [{"k": "step", "val": "pb"}, {"k": "wait", "s": 1}]}], "cfg": None}],
+                  [{"k": "try", "body": {"k": "wfcb"}, "catch": "*"}, {"k": "step", "val": "post-cb"}])
+    for n in (L + 10, 3 * L):
+        for inner in inner_sets:
+            big = {"k": "child", "body": inner, "result": {"big": n}, "cfg": None if i % 2 else {"summary": '{"s":1}'}}
+            for wrap in (0, 1):
+                node = big if not wrap else {"k": "child", "body": [{"k": "step", "val": "pre"}, big, {"k": "step", "val": "post"}]}
+                yield {"label": "c01-summarised-context", "prog": {"body": [node] + tail}, "prog_seed": 26000 + i,
+                       "pattern": {"p": "crash_enum", "max_points": 10} if (tier != "quick" or i % 4 == 0) else {"p": "plain"},
+                       "pages": [{}, {"first_page": 1, "page_size": 2}][i % 2]}
+                i += 1
+        for kind in ("par", "map"):
+            brs = [{"body": [{"k": "step", "val": "x%d" % j}, {"k": "wait", "s": 1 + j}, {"k": "step", "val": "y%d" % j}], "result": {"big": n // 2 + 10}} for j in range(2)]
+            node = {"k": "par", "branches": brs, "cfg": None} if kind == "par" else {"k": "map", "items": [0, 1], "per_item": brs, "body": [], "cfg": None}
+            yield {"label": "c01-summarised-" + kind, "prog": {"body": [node] + tail}, "prog_seed": 26000 + i,
+                   "pattern": {"p": "crash_enum", "max_points": 10} if tier != "quick" else {"p": "plain"}}
+            i += 1
 SPEC = Spec(
     PROP,
     level="fault_enumeration",
     rule="random programs (all nine operation kinds, nesting<=3) x {uninterrupted with random pagination/latency, every single "
-    "crash point of a small-program corpus, random multi-crash, asynchronous SIGKILL, yield injection}; at every user-function entry the backend table must not hold that operation terminal (context bodies excepted only under ReplayChildren); every operation terminal at invocation start must deliver the recorded kind of outcome. Non-trivial = an operation that was terminal at an invocation's start was delivered again (replayed) in that invocation. "
+    "crash point of a small-program corpus, random multi-crash, asynchronous SIGKILL, yield injection}; at every user-function entry the backend table must not hold that operation terminal (context bodies excepted only under ReplayChildren); every operation terminal at invocation start must deliver the recorded kind of outcome. Explicit slice: child contexts / map / parallel whose result exceeds the checkpoint size limit (recorded as a summary, body traversed again on replay) with steps, retried steps, waits, conditions, callbacks and nested contexts inside, at two nesting depths. Non-trivial = an operation that was terminal at an invocation's start was delivered again (replayed) in that invocation. "
     "A class = (program shape hash, interruption pattern, event kind at which the crash landed).",
     deciding=replayed_delivery,
+    explicit=explicit,
 )
 cases = SPEC.cases
 run_case = SPEC.run_case
